@@ -7,7 +7,7 @@ from .. import refmodel as R
 from .. import gen as G
 from .. import arith as A
 from ..exact import Unsupported
-from ..storejudge import decode_store, STORE_OPS
+from ..storejudge import decode_store, STORE_OPS, underflows_to_zero, UNDERFLOW_KEY
 from . import c01
 
 ID = 'C03'
@@ -93,6 +93,10 @@ def make_judges(ctx):
         for v, x, k in zip(si.values, xs, post.codes):
             ru = R.round_exact(x, post.rounding)
             if not isinstance(k, int) or not (lo <= k <= hi) or (k - ru) % m != 0:
+                if isinstance(k, int) and lo <= k <= hi and not si.raw and underflows_to_zero(v, post.n_frac) and k % m == 0:
+                    ctx.violation('not_residue', '%s %s/wrap: input %.3e is scaled to +-0 in double arithmetic and stored as code 0 (exact rounding gives %d)' % (
+                        R.dtype_fxp(*post.fmt()), post.rounding, float(v), ru), ev, key=UNDERFLOW_KEY)
+                    continue
                 ctx.violation('not_residue', '%s %s/wrap%s: input %s rounds to %d, stored code %r is not its in-range residue mod 2^%d' % (
                     R.dtype_fxp(*post.fmt()), post.rounding, ' raw' if si.raw else '', v, ru, k, n), ev)
                 break
@@ -308,6 +312,24 @@ def run_case(case, ctx):
         # op_sizing='same'
         _try(lambda: oper(mk(a, op_sizing='same'), mk(b)))
         _try(lambda: func(mk(a), mk(b), sizing='same'))
+        # operands of mixed signedness and different widths whose raw result needs 54..62 bits, stored into a short wrap register
+        if i % 3 == 2 or op == 'mul':
+            wa, wb = rng.randint(30, 44), rng.randint(10, 62 - 44)
+            sa = rng.random() < 0.5
+            sb = not sa if rng.random() < 0.7 else sa
+            la, ha = R.code_range(sa, wa)
+            lb, hb = R.code_range(sb, wb)
+            ca = rng.choice([la, ha, rng.randint(la, ha), rng.randint(la, ha) | 1])
+            cb = rng.choice([lb, hb, rng.randint(lb, hb), rng.randint(lb, hb) | 1])
+            nreg = rng.choice([4, 8, 12, 16, 24, 32])
+            sreg = sa or sb
+            xa = Fxp(ca, sa, wa, 0, raw=True)
+            xb = Fxp(cb, sb, wb, 0, raw=True)
+            for fn in (fm.mul, fm.add, fm.sub):
+                _try(lambda: fn(xa, xb, out=Fxp(None, sreg, nreg, 0, overflow='wrap')))
+                _try(lambda: fn(xb, xa, out_like=Fxp(None, sreg, nreg, 0, overflow='wrap', rounding=r)))
+            reg = Fxp(None, sreg, nreg, 0, overflow='wrap')
+            _try(lambda: reg.equal(xa * xb))
         # accumulate in place
         acc = mk(a, op_sizing='same')
         for _ in range(3):
